@@ -487,12 +487,12 @@ func c03r3(c *core.Ctx) {
 		c.Check(vals[m.guard[finish]], "chain:"+fname(finish), finish.Pos(), "finish is enabled by the constant the start handler stores", "the guard constant of the finish handler is never stored by the start handler")
 	}
 	// reset on every exit of Handle that went through the finish handler: final step == reset constant
-	reset := p.Func("hap/pair", "(*VerifyServerController).reset")
-	rs := stepSummary(reset, tVerifyCtrl, "step", 3)
-	if rs.kind != 1 {
+	rsVal, _, rsOK := resetState(p, "VerifyServerController", tVerifyCtrl)
+	if !rsOK {
 		c.Undecided("reset", token.NoPos, "reset() does not store one constant")
 		return
 	}
+	rs := struct{ val int64 }{rsVal}
 	bad := 0
 	npaths := 0
 	core.EnumPaths(m.handle, 2, 20000, func(pa core.Path) {
